@@ -228,7 +228,8 @@ impl TextConversion for TextConverter {
         let mut await_indent = false;
         for i in 0..src.len() {
             if await_indent {
-                for _rep in 0..src[i]-32 {
+                // a count below 32 (damaged or foreign file) gives no indentation
+                for _rep in 0..src[i].saturating_sub(32) {
                     ans.push(0x20);
                 }
                 await_indent = false;
